@@ -583,6 +583,35 @@ def pinned_known(mod):
     return lines
 
 
+def regression_cases(mod, start_index):
+    """Cases that once failed on a tree that was then repaired (known/regress/<property>-*.json, committed by hand):
+    executed on every run, so that a repaired defect whose trigger is too rare for the seeded search to hit again is
+    reported the moment it returns.  They go through the same minimise / fresh-interpreter path as any failure."""
+    import glob
+    out = []
+    for k, path in enumerate(sorted(glob.glob(os.path.join(VERIF, "known", "regress", "%s-*.json" % mod.PROP)))):
+        with open(path) as fh:
+            case = json.load(fh)
+        case.pop("expect", None)
+        t0 = time.time()
+        signal.signal(signal.SIGALRM, _alarm)
+        signal.alarm(int(getattr(mod, "ALARM_S", 600)))
+        try:
+            with quiet():
+                res = mod.execute(case)
+        except RunTimeout:
+            res = {"failures": [], "stats": {"alarm_inconclusive": 1}, "log": ["ALARM"]}
+        finally:
+            signal.alarm(0)
+        out.append({"index": start_index + k, "seed": int(case.get("run_seed", 0)), "wall": time.time() - t0, "pred": [],
+                    "failures": res.get("failures", []), "stats": dict(res.get("stats", {}), regression_cases=1),
+                    "faults": res.get("faults", {}), "nontrivial": bool(res.get("nontrivial", False)),
+                    "measure": res.get("measure", []), "digest": digest(res.get("log", [])),
+                    "digest12": digest(res.get("log", []), 12), "cdigest": case_digest(case), "batch": "regression",
+                    "case": case})
+    return out
+
+
 def write_evidence(mod, tier, recs, wall, violations, known_lines, extra=None):
     prop = mod.PROP
     n = len(recs)
@@ -662,6 +691,7 @@ def main_check(mod, tier, replay=None):
     count = mod.BUDGET[tier]
     try:
         recs = run_batch(mod, tier, count, alarm_s=getattr(mod, "ALARM_S", 600))
+        recs.extend(regression_cases(mod, len(recs)))
         extra_ev = None
         if hasattr(mod, "aggregate"):
             agg_fail, extra_ev = mod.aggregate(recs, tier)
